@@ -425,8 +425,12 @@ char *FUNC(generate)(jwt_common_t *__cmd)
 		return NULL;
 
 	jwt = jwt_malloc(sizeof(*jwt));
-	if (jwt == NULL)
-		return NULL; // LCOV_EXCL_LINE
+	if (jwt == NULL) {
+		// LCOV_EXCL_START
+		jwt_write_error(__cmd, "Could not allocate JWT object");
+		return NULL;
+		// LCOV_EXCL_STOP
+	}
 
 	memset(jwt, 0, sizeof(*jwt));
 
@@ -477,8 +481,10 @@ char *FUNC(generate)(jwt_common_t *__cmd)
 	jwt->alg = config.alg;
 	jwt->key = config.key;
 
-	if (jwt_head_setup(jwt))
-		return NULL; // LCOV_EXCL_LINE
+	if (jwt_head_setup(jwt)) {
+		jwt_copy_error(__cmd, jwt);
+		return NULL;
+	}
 
 	out = jwt_encode_str(jwt);
 	jwt_copy_error(__cmd, jwt);
